@@ -40,6 +40,9 @@ const STATIC_QSETS: &[QuerySet] = &[
     QuerySet { id: "stmto", lang: "stmt", tags: include_str!("stmto_tags.scm"), locals: "" },
     // the same finding in a realistic shape: definition with a trailing docstring (corpus only)
     QuerySet { id: "stmtl", lang: "stmt", tags: include_str!("stmtl_tags.scm"), locals: "" },
+    // touching names (no byte between two name nodes) with a lower-index pattern completing after the next name
+    QuerySet { id: "lstt", lang: "lst", tags: include_str!("lstt_tags.scm"), locals: "" },
+    QuerySet { id: "stmtt", lang: "stmt", tags: include_str!("stmtt_tags.scm"), locals: "" },
 ];
 
 /// Completion points of a pattern that shares ONE @name node with the other patterns of its query set:
@@ -836,6 +839,90 @@ fn gen_parens(rng: &mut Rng) -> Vec<u8> {
     s.into_bytes()
 }
 
+/// Sources whose name nodes TOUCH (round 11): tokens joined without a separator (`dense`: never a separator;
+/// otherwise one in four joints gets a blank).  lst: `a1b(c2)d`; stmt: `x=a+b;f(a<b+'s');`.
+fn gen_touch(rng: &mut Rng, lang: &str) -> Vec<u8> {
+    let dense = rng.chance(1, 2);
+    let mut s = String::new();
+    let joint = |rng: &mut Rng, s: &mut String| {
+        if !dense && rng.chance(1, 4) {
+            s.push_str(pk(rng, &[" ", "\n", "  "]));
+        }
+    };
+    if lang == "lst" {
+        let mut open = 0;
+        let mut last_word = false;
+        for _ in 0..rng.range(2, 24) {
+            match rng.below(8) {
+                0 | 1 | 2 if !last_word => {
+                    s.push_str(pk(rng, &["a", "b", "é", "zé€", "abc", "q"]));
+                    last_word = true;
+                }
+                0 | 1 | 2 | 3 | 4 => {
+                    s.push_str(&format!("{}", rng.below(50)));
+                    last_word = false;
+                }
+                5 | 6 => {
+                    s.push('(');
+                    open += 1;
+                    last_word = false;
+                }
+                _ => {
+                    if open > 0 {
+                        s.push(')');
+                        open -= 1;
+                        last_word = false;
+                    }
+                }
+            }
+            let before = s.len();
+            joint(rng, &mut s);
+            if s.len() > before {
+                last_word = false;
+            }
+        }
+        if rng.chance(5, 6) {
+            for _ in 0..open {
+                s.push(')');
+            }
+        }
+    } else {
+        fn operand(rng: &mut Rng, s: &mut String) {
+            match rng.below(6) {
+                0 | 1 | 2 => s.push_str(pk(rng, IDS)),
+                3 => s.push_str(&format!("{}", rng.below(90))),
+                4 => s.push_str(pk(rng, STRS)),
+                _ => {
+                    s.push_str(pk(rng, IDS));
+                    s.push('(');
+                    s.push_str(pk(rng, IDS));
+                    s.push(')');
+                }
+            }
+        }
+        for _ in 0..rng.range(1, 8) {
+            if rng.chance(1, 2) {
+                s.push_str(pk(rng, IDS));
+                joint(rng, &mut s);
+                s.push('=');
+                joint(rng, &mut s);
+            }
+            operand(rng, &mut s);
+            for _ in 0..rng.below(4) {
+                joint(rng, &mut s);
+                s.push_str(pk(rng, &["+", "-", "<", "=="]));
+                joint(rng, &mut s);
+                operand(rng, &mut s);
+            }
+            if rng.chance(9, 10) {
+                s.push(';');
+            }
+            joint(rng, &mut s);
+        }
+    }
+    s.into_bytes()
+}
+
 fn gen_bytes(rng: &mut Rng) -> Vec<u8> {
     // byte strings for LossyUtf8: mixtures of well-formed scalars and ill-formed pieces
     let n = rng.below(12);
@@ -852,6 +939,10 @@ fn gen_bytes(rng: &mut Rng) -> Vec<u8> {
         }
     }
     b
+}
+
+fn env_lang(qid: &str) -> &'static str {
+    qsets().iter().find(|q| q.id == qid).map(|q| q.lang).unwrap_or("stmt")
 }
 
 fn main() {
@@ -957,6 +1048,18 @@ fn main() {
         ntags += t;
         with_err += e as usize;
         *classes.entry(format!("{qid}:ties")).or_default() += 1;
+    }
+    // touching names (own PRNG stream so the cases above stay the same)
+    let mut rng3 = Rng::new(seed_from_env() ^ 0x70c4_18);
+    for k in 0..(if thorough { 800 } else { 120 }) {
+        let qid = if k % 2 == 0 { "lstt" } else { "stmtt" };
+        let env = env_of(qid).unwrap();
+        let src = gen_touch(&mut rng3, env_lang(qid));
+        let (t, e) = emit_case(&mut out, env, qid, &format!("{qid}-g{k}"), &src);
+        ncases += 1;
+        ntags += t;
+        with_err += e as usize;
+        *classes.entry(format!("{qid}:touching")).or_default() += 1;
     }
     emit_c_errors(&mut out, &envs[0]);
     for k in 0..n_fn {
